@@ -24,7 +24,7 @@ RULE = (
     "pair; distinct = (operation, parameters, input hash, seed); non-trivial = the operation returned in both runs"
 )
 ASSUMPTIONS = ["thorough tier repeats the CLI steps as real subprocesses under two PYTHONHASHSEED values", "line-granular injection uses sys.monitoring LINE events on code objects whose file lies under the tree under test"]
-REQUIRED = {"pairs_compared": {"quick": 400, "thorough": 8000}, "global_state_checks": {"quick": 400, "thorough": 8000}, "injected_global_draws": {"quick": 2000, "thorough": 50000}, "training_pairs": {"quick": 16, "thorough": 300}, "training_pairs_same_model": {"quick": 16, "thorough": 300}, "cli_pairs": {"quick": 24, "thorough": 400}, "cli_subprocess_pairs": {"quick": 2, "thorough": 16}}
+REQUIRED = {"pairs_compared": {"quick": 400, "thorough": 8000}, "global_state_checks": {"quick": 400, "thorough": 8000}, "injected_global_draws": {"quick": 2000, "thorough": 50000}, "training_pairs": {"quick": 16, "thorough": 300}, "training_pairs_same_model": {"quick": 16, "thorough": 300}, "vi_training_pairs": {"quick": 40, "thorough": 600}, "grid_model_training_pairs": {"quick": 2, "thorough": 16}, "cli_pairs": {"quick": 24, "thorough": 400}, "cli_subprocess_pairs": {"quick": 2, "thorough": 16}}
 N_OPS = {"quick": 640, "thorough": 12800}
 TOOL = 4
 
@@ -83,13 +83,14 @@ class Injector:
         m.free_tool_id(TOOL)
 
 
-def pair(rec, opname, detail, run, fingerprint, w, inj_every=23, case_key=None, count_as=None):
+def pair(rec, opname, detail, run, fingerprint, w, inj_every=23, case_key=None, count_as=None, extra_state=None):
     """Run `run(seed)` twice; decide determinism and non-perturbation."""
     # ---- run A: bracketed by global-state snapshots (no injection)
     np.random.seed(12345)
     random.seed(12345)
     np.random.random(3)
     b_np, b_py = np_state(), py_state()
+    b_extra = extra_state() if extra_state else None
     try:
         a = run()
         fa = fingerprint(a)
@@ -101,6 +102,8 @@ def pair(rec, opname, detail, run, fingerprint, w, inj_every=23, case_key=None, 
     rec.count("global_state_checks")
     rec.check(a_np == b_np, "C18/%s/perturbs-global-numpy-state" % opname, "%s %s changed numpy's process-global random state" % (opname, detail), w)
     rec.check(a_py == b_py, "C18/%s/perturbs-global-python-state" % opname, "%s %s changed Python's global random state" % (opname, detail), w)
+    if extra_state:
+        rec.check(extra_state() == b_extra, "C18/%s/perturbs-global-torch-state" % opname, "%s %s changed torch's process-global generator state" % (opname, detail), w)
     # ---- between the runs: reseed the globals differently and draw
     np.random.seed(987)
     random.seed(4)
@@ -245,6 +248,51 @@ def run_shard(rec, tier, seed, shard, nshards):
             w2 = dict(w, n_burnin=nb, same_model_object=True)
             pair(rec, "train-same-model/" + mname, "seed=%d" % sd, train_again, theta_fp, w2, inj_every=97, case_key=("train-again", mname, sd, nch, ch, nb, kit.array_hash(screen.observations)), count_as="training_pairs_same_model")
 
+    # ------------------------------------------------ training of a variational model through sampling.sample
+    from batchie.core import BayesianModel, VIModel, Theta
+
+    class DrawTheta(Theta):
+        def __init__(self, v):
+            self.v = v
+
+    class WellBehavedVI(BayesianModel, VIModel):
+        """draws only from the generator it is handed"""
+
+        def __init__(self):
+            self._rng = None
+
+        def reset_model(self):
+            pass
+
+        def set_rng(self, rng):
+            self._rng = rng
+
+        @property
+        def rng(self):
+            return self._rng
+
+        def sample(self, num_samples):
+            return [DrawTheta(self._rng.normal(size=3).tobytes().hex()) for _ in range(num_samples)]
+
+        def _add_observations(self, data):
+            pass
+
+        def n_obs(self):
+            return 0
+
+    for vi in range({"quick": 6, "thorough": 40}[tier]):
+        sd = int(rng.choice([0, 1, 7, 2**31 + 5, int(rng.integers(0, 2**32))]))
+        nth = int(rng.integers(1, 6))
+
+        def train_vi(sd=sd, nth=nth):
+            return sampling.sample(WellBehavedVI(), ThetaHolder(n_thetas=nth), seed=sd)
+
+        pair(rec, "train/variational-model", "seed=%d" % sd, train_vi, lambda h: [h.get_theta(i).v for i in range(h.n_thetas)], {"seed": sd, "n_thetas": nth}, inj_every=7, case_key=("train-vi", sd, nth, vi), count_as="vi_training_pairs")
+
+    # ------------------------------------------------ the shipped variational model (pyro / torch)
+    if (tier == "quick" and shard == 3) or (tier == "thorough" and shard in (4, 5, 6, 7)):
+        grid_model_pairs(rec, tier, rng)
+
     # ------------------------------------------------ CLI mains with --seed, in-process
     cli_pairs(rec, tier, rng)
     if tier == "thorough" and shard < 4:
@@ -252,6 +300,57 @@ def run_shard(rec, tier, seed, shard, nshards):
     elif tier == "quick" and shard < 2:
         # iteration order of sets / dicts of strings is a hidden input that only differs between processes
         cli_subprocess_pairs(rec, rng, shard, only=("prepare_retrospective_simulation",))
+
+
+def grid_model_pairs(rec, tier, rng):
+    """ComboGridFactorModel is trained by stochastic variational inference: mini-batch order, the smoothing grid points
+    and every pyro sample statement are random. sampling.sample(model, seed=s) hands it a generator; the fit must be
+    a function of it and leave numpy's, Python's and torch's global generators alone."""
+    try:
+        import torch
+        from batchie.models.grid_combo import ComboGridFactorModel
+    except Exception as e:  # torch / pyro not importable: nothing to judge
+        rec.did_not_return("import-grid-model", e)
+        return
+    from batchie.data import Screen, ExperimentSpace
+    from batchie import sampling
+    from batchie.core import ThetaHolder
+
+    def torch_state():
+        return torch.random.get_rng_state().numpy().tobytes()
+
+    for gi in range({"quick": 2, "thorough": 4}[tier]):
+        drugs = np.array(["a", "b", "c", "d"][: int(rng.integers(3, 5))])
+        n = int(rng.integers(12, 40))
+        i1 = rng.integers(0, len(drugs), size=n)
+        i2 = (i1 + rng.integers(1, len(drugs), size=n)) % len(drugs)  # combination rows only
+        kw = dict(
+            treatment_names=np.stack([drugs[i1], drugs[i2]], axis=1),
+            treatment_doses=rng.choice([0.1, 1.0, 10.0], size=(n, 2)),
+            sample_names=rng.choice(["s1", "s2"], size=n),
+            plate_names=np.array(["p%d" % (i % 3) for i in range(n)]),
+            observations=rng.uniform(0.05, 0.95, size=n),
+            control_treatment_name="",
+        )
+        screen = Screen(**kw)
+        sd = int(rng.integers(0, 2**31))
+        nth = int(rng.integers(1, 4))
+        steps = int(rng.integers(3, 9))
+        bs = int(rng.choice([5, 50000]))
+
+        def train(screen=screen, drugs=drugs, sd=sd, nth=nth, steps=steps, bs=bs):
+            m = ComboGridFactorModel(experiment_space=ExperimentSpace.from_screen(screen), n_unique_samples=2, unique_drug_names=drugs, log_conc_range=(-3.0, 3.0), n_grid=6, n_embedding_dimensions=2, n_sigma_embedding_dimensions=2, min_steps=steps, max_steps=steps, n_epochs=1, batch_size=bs)
+            m.add_observations(screen.subset_observed())
+            return sampling.sample(m, ThetaHolder(n_thetas=nth), seed=sd)
+
+        def fp(h):
+            out = []
+            for i in range(h.n_thetas):
+                d = h.get_theta(i).private_parameters_dict()
+                out.append(sorted((k, np.asarray(v, dtype=np.float64).tobytes().hex()) for k, v in d.items()))
+            return out
+
+        pair(rec, "train/ComboGridFactorModel", "seed=%d" % sd, train, fp, {"seed": sd, "rows": n, "n_thetas": nth, "svi_steps": steps, "batch_size": bs}, inj_every=4001, case_key=("train-grid", sd, n, nth, steps, bs), count_as="grid_model_training_pairs", extra_state=torch_state)
 
 
 def h5_fingerprint(path):
